@@ -319,3 +319,177 @@ def _register_foreign():
 
 
 _register_foreign()
+
+
+class CubeRoundTrip:
+    """write_cube -> read_cube with a symbolic non-orthogonal cell, symbolic positions / charges / field values and an
+    anisotropic concrete grid."""
+
+    def __init__(self, s=(2, 3, 4)):
+        self.s = s
+
+    def __call__(self, ob, tier, seed):
+        try:
+            return self.prove(ob)
+        except (OutsideSubset, TypeError, AttributeError, KeyError, ValueError, IndexError, z3.Z3Exception) as e:
+            ok, info = self.replay({})
+            if ok:
+                return Result(REFUTED, backend="native-contract-evaluation", witness=dict(s=list(self.s)), replayed=True, replay_info=info,
+                              detail=f"CUBE round trip fails natively (symbolic run left the subset: {type(e).__name__}: {e})")
+            return Result(UNDECIDED, backend="engine-Z", detail=f"outside subset: {type(e).__name__}: {e}")
+
+    def prove(self, ob):
+        w = World()
+        mod = w.module("eminus.io.cube")
+        labels = ["O", "H"]
+        at = make_atoms(w, labels)
+        at.s = list(self.s)
+        at.Z = [named(w, f"Z{i}", "real") for i in range(len(labels))]
+        n = self.s[0] * self.s[1] * self.s[2]
+        field = Vec([named(w, f"f{i}", "real") for i in range(n)])
+        store = {}
+        ext = io_ext(store)
+
+        def run(it):
+            store.clear()
+            it.call(it.lookup_global("write_cube", mod), [at, "t.cube", field], {})
+            return it.call(it.lookup_global("read_cube", mod), ["t.cube"], {}), None
+
+        res = explore(w, run, ext=ext)
+        for r in res:
+            if r.outcome != "return":
+                return self.refute(f"raised {r.outcome}: {r.value}")
+            atom, pos, Z, a, s, fld = r.value
+            if [str(x) for x in atom] != labels:
+                return self.refute(f"species {atom} != {labels}")
+            P = pos.a if isinstance(pos, NdArr) else np.array([list(p) for p in pos], dtype=object)
+            Aa = a.a if isinstance(a, NdArr) else np.array([list(p) for p in a], dtype=object)
+            for i in range(len(labels)):
+                if not real_eq(w, r.path.pc, Z[i], at.Z[i]):
+                    return self.refute(f"charge of atom {i}")
+                for c in range(3):
+                    if not real_eq(w, r.path.pc, P[i, c], at.pos.a[i, c]):
+                        return self.refute(f"position of atom {i}")
+            for i in range(3):
+                for c in range(3):
+                    if not real_eq(w, r.path.pc, Aa[i, c], at.a.a[i, c]):
+                        return self.refute(f"cell vector a[{i},{c}] is not preserved (voxel vector i must be a_i / s_i) for the anisotropic grid {self.s}")
+            S = list(s.a) if isinstance(s, NdArr) else list(s)
+            if [int(x) for x in S] != list(self.s):
+                return self.refute(f"sampling {S}")
+            F = list(fld)
+            if len(F) != n:
+                return self.refute(f"{len(F)} field values read, {n} written")
+            for i in range(n):
+                if not real_eq(w, r.path.pc, F[i], field[i]):
+                    return self.refute(f"field value {i} is not preserved / reordered")
+        return Result(DISCHARGED, backend="z3")
+
+    def refute(self, msg):
+        ok, info = self.replay({})
+        return Result(REFUTED, backend="engine-Z", witness=dict(s=list(self.s)), replayed=ok, replay_info=info, detail=f"CUBE round trip: {msg}")
+
+    def replay(self, wit):
+        import os
+        import tempfile
+
+        import eminus
+        from eminus import Atoms
+        from eminus.io import read_cube, write_cube
+
+        eminus.config.backend = "numpy"
+        eminus.config.verbose = "critical"
+        a = np.array([[6.0, 0.4, 0.2], [0.3, 7.0, 0.5], [0.1, 0.6, 8.0]])
+        at = Atoms(["O", "H"], [[1.0, 2.0, 3.0], [2.5, 1.5, 0.5]], ecut=1, a=a)
+        at.s = [7, 11, 18]
+        at.build()
+        f = np.random.default_rng(0).standard_normal(at.Ns)
+        with tempfile.TemporaryDirectory() as d:
+            fn = os.path.join(d, "t.cube")
+            write_cube(at, fn, f)
+            atom, pos, Z, a2, s2, f2 = read_cube(fn)
+        errs = dict(cell=float(np.abs(np.asarray(a2) - a).max()), pos=float(np.abs(np.asarray(pos) - np.asarray(at.pos)).max()),
+                    field=float(np.abs(np.asarray(f2) - f).max()), s=[int(x) for x in s2])
+        bad = errs["cell"] > 1e-4 or errs["pos"] > 1e-5 or errs["field"] > 1e-5 or errs["s"] != [7, 11, 18] or list(atom) != ["O", "H"]
+        return bool(bad), dict(check="native CUBE round trip, triclinic cell, s=(7,11,18)", errors=errs)
+
+
+register(Obligation(name="C17.cube.roundtrip", prop=PROP, engine="Z", functions=["eminus.io.cube:write_cube", "eminus.io.cube:read_cube"],
+                    run=CubeRoundTrip(), assumes=("engineZ", "z3", "float-format"),
+                    doc="CUBE: species, positions, charges, symbolic non-orthogonal cell (voxel vectors a_i/s_i), anisotropic grid (2,3,4) and all field values in order"))
+
+
+class JsonHook:
+    """_custom_object_hook restores every stored attribute of a dataclass-like object (Energy, Occupations): the restored
+    object's fields equal the dictionary entries, for symbolic values (no field is dropped or defaulted)."""
+
+    def __init__(self, cls):
+        self.cls = cls
+
+    def __call__(self, ob, tier, seed):
+        import ast
+
+        try:
+            w = World()
+            mod = w.module("eminus.io.json")
+            modname, clsname = {"Energy": ("eminus.energies", "Energy"), "Occupations": ("eminus.occupations", "Occupations")}[self.cls]
+            C = w.module(modname).get_class(clsname)
+            fields = [n.target.id for n in C.node.body if isinstance(n, ast.AnnAssign)]
+            dct = {f: named(w, f"v_{f}", "real") for f in fields}
+
+            def run(it):
+                return it.call(it.lookup_global("_custom_object_hook", mod), [dct], {}), None
+
+            res = explore(w, run, ext={"copy.deepcopy": lambda it, a, k: a[0]})
+            for r in res:
+                if r.outcome != "return":
+                    return Result(UNDECIDED, backend="engine-Z", detail=f"hook ended with {r.outcome}: {r.value}")
+                o = r.value
+                if not hasattr(o, "fields") or o.cls.name != clsname:
+                    return self.refute(f"the hook does not rebuild a {clsname} object")
+                for f in fields:
+                    v = o.fields.get(f)
+                    if not isinstance(v, Sym) or not v.e.eq(dct[f].e):
+                        return self.refute(f"attribute {f} of the restored {clsname} is {v!r}, not the stored value")
+            return Result(DISCHARGED, backend="engine-Z", stats=dict(fields=fields))
+        except (OutsideSubset, TypeError, AttributeError, KeyError, ValueError, IndexError) as e:
+            ok, info = self.replay({})
+            if ok:
+                return Result(REFUTED, backend="native-contract-evaluation", witness=dict(cls=self.cls), replayed=True, replay_info=info,
+                              detail=f"JSON restore of {self.cls} loses an attribute natively ({type(e).__name__}: {e})")
+            return Result(UNDECIDED, backend="engine-Z", detail=f"outside subset: {type(e).__name__}: {e}")
+
+    def refute(self, msg):
+        ok, info = self.replay({})
+        return Result(REFUTED, backend="engine-Z", witness=dict(cls=self.cls), replayed=ok, replay_info=info, detail=f"JSON object hook: {msg}")
+
+    def replay(self, wit):
+        import dataclasses
+        import os
+        import tempfile
+
+        import eminus
+        from eminus.io import read_json, write_json
+
+        eminus.config.backend = "numpy"
+        if self.cls == "Energy":
+            from eminus.energies import Energy
+
+            o = Energy(*[0.5 + 0.25 * i for i in range(len(dataclasses.fields(Energy)))])
+        else:
+            from eminus.occupations import Occupations
+
+            o = Occupations()
+            o.Nelec, o.Nspin, o.spin, o.charge, o.smearing, o.bands = 5, 2, 1, 1, 0.01, 6
+        with tempfile.TemporaryDirectory() as d:
+            fn = os.path.join(d, "o.json")
+            write_json(o, fn)
+            o2 = read_json(fn)
+        bad = {k: (v, getattr(o2, k, None)) for k, v in o.__dict__.items() if not np.all(getattr(o2, k, None) == v)}
+        return bool(bad), dict(check=f"native JSON round trip of a {self.cls} object with distinct field values", differing={k: str(v) for k, v in bad.items()})
+
+
+for _cls in ("Energy", "Occupations"):
+    register(Obligation(name=f"C17.json.object_hook.{_cls}", prop=PROP, engine="Z",
+                        functions=["eminus.io.json:_custom_object_hook"], run=JsonHook(_cls), assumes=("engineZ",),
+                        doc=f"JSON/HDF5 object hook restores every attribute of a stored {_cls} object (symbolic values)"))
